@@ -35,6 +35,7 @@ Record act := mkAct {
   a_result : result;
   a_alive : bool;                   (* the daemon answered /ping afterwards *)
   a_expect : option oframe;         (* the last frame this stream was built to provoke, when it was *)
+  a_expect_status : option N;       (* the status a request with a missing / invalid argument must get (400) *)
   a_view : view
 }.
 
@@ -134,6 +135,7 @@ Fixpoint mon_acts (by_ : peer) (prev : view) (l : list act) : bool :=
            && match mine p v with [] => true | _ => false end         (* the closed connection left nothing *)
        | AHttp _ _ _, RHttp n =>
            negb (N.eqb n 0)
+           && match a_expect_status a with Some e => N.eqb n e | None => true end
            && (if (400 <=? n)%N && (n <? 500)%N then view_same v prev else true)
        | AOp _, ROp _ => true
        | _, _ => false
@@ -154,7 +156,8 @@ Record iview := imkView {
   iv_debug : list (cat * N * N * peer * bool)
 }.
 Record iact := imkAct {
-  ia_action : iaction; ia_result : result; ia_alive : bool; ia_expect : option oframe; ia_view : iview
+  ia_action : iaction; ia_result : result; ia_alive : bool; ia_expect : option oframe;
+  ia_expect_status : option N; ia_view : iview
 }.
 Record icase := imk { ic_names : list name; ic_by : peer; ic_topic : N; ic_acts : list iact }.
 
@@ -169,7 +172,7 @@ Definition ract (tbl : list name) (a : iact) : act :=
      | IAHttp m path q => AHttp m path (rq tbl q)
      | IAOp o => AOp (rop tbl o)
      end)
-    (ia_result a) (ia_alive a) (ia_expect a)
+    (ia_result a) (ia_alive a) (ia_expect a) (ia_expect_status a)
     (let v := ia_view a in
      mkView (option_map (fun cp => (nms tbl (fst cp), snd cp)) (iv_lookup v))
             (nms tbl (iv_topics v)) (nms tbl (iv_chans v))
